@@ -55,6 +55,11 @@ CallOK(arch, ld, c) ==
       [] c.op = "getBlockTime" -> BlockTimeOK(arch, ld, c)
       \* fetch by CID through one epoch: a stored CID (sig >= 0: its section index) yields exactly that object's bytes,
       \* any other CID never yields bytes
+      \* REST: the CID of the archived block / transaction (c.txsame: the body is exactly that CID), 404 otherwise
+      [] c.op = "api.slot-to-cid" -> LET b == FindBlock(arch, c.slot) IN
+                                     IF b # NoBlock /\ Loaded(ld, EpochOf(c.slot)) THEN c.status = "ok" /\ c.txsame ELSE c.status # "ok"
+      [] c.op = "api.sig-to-cid" -> LET r == FindTx(arch, c.sig) IN
+                                    IF r.slot # -1 /\ Loaded(ld, EpochOf(r.slot)) THEN c.status = "ok" /\ c.txsame ELSE c.status # "ok"
       [] c.op = "getSlot" -> EdgeOK(arch, ld, c, TRUE)
       [] c.op = "getFirstAvailableBlock" -> EdgeOK(arch, ld, c, FALSE)
       [] c.op = "getNode" -> IF c.sig >= 0 THEN c.status = "ok" /\ c.txsame ELSE c.status # "ok"
